@@ -130,7 +130,10 @@ Inductive oto_hop :=
 | HNew (uniq : bool) (kvs : list kv)            (* OneToOne(...) / OneToOne.unique(...), appended *)
 | HCopy (i : nat) (s : bool)                    (* x.copy(), OneToOne(x), copy.copy(x) with x = side s of instance i *)
 | HOp (i : nat) (s : bool) (op : oto_op)
-| HUpdFrom (ior : bool) (i : nat) (s : bool) (j : nat) (t : bool).   (* x.update(y) / x |= y *)
+| HUpdFrom (ior : bool) (i : nat) (s : bool) (j : nat) (t : bool)    (* x.update(y) / x |= y *)
+| HFromkeys (keys : list nat) (v : nat).        (* OneToOne.fromkeys(keys, v): cls() then o[k] = v for each key *)
+
+Definition fromkeys_pairs (keys : list nat) (v : nat) : list kv := map (fun k => (k, v)) keys.
 
 Fixpoint set_nth {A} (l : list A) (i : nat) (x : A) : list A :=
   match l, i with
@@ -163,6 +166,10 @@ Definition oto_hstep (h : list oto) (hop : oto_hop) : list oto * res val :=
           (set_nth h i o', r)
       | _, _ => (h, Raise BadIndex)
       end
+  | HFromkeys keys v =>
+      let kvs := fromkeys_pairs keys v in
+      if existsb kv_unhashable kvs then (h, Raise TypeError)
+      else (h ++ [oto_update (mkOto [] []) kvs], Ok VNone)
   end.
 
 (* public view of an instance: list(o.items()), list(o.inv.items()), o.inv.inv is o *)
